@@ -22,7 +22,8 @@
    cnt counts the non-vacuous evaluations of each monitor. *)
 EXTENDS Isolation, Json, IOUtils
 T == ndJsonDeserialize(IOEnv.TRACE)
-MaxFails == 40
+MaxFails == 400       \* total
+MaxPerLabel == 5      \* per label: a frequent (possibly known) failure must not crowd out a rare one
 MaxN == 8
 VARIABLES l, S, k, ref, ref2, meta, rnd, mraces, may, prev, fails, cnt, drift, exec
 vars == <<l, S, k, ref, ref2, meta, rnd, mraces, may, prev, fails, cnt, drift, exec>>
@@ -37,11 +38,16 @@ Rnd0 == [g |-> -1, acc |-> [i \in 1..MaxN |-> {}]]
 May0 == [ct |-> {G0.ct}, lt |-> {G0.lt},                  \* at the start of the current round
          nct |-> {G0.ct}, nlt |-> {G0.lt},                \* after the current round
          wct |-> {}, wlt |-> {},                          \* written by anybody during the current round
-         lfod |-> [i \in 1..MaxN |-> {}]]                 \* what instance i may have latched at its last register-0x22 write
+         lfod |-> [i \in 1..MaxN |-> {}],                 \* what instance i may have latched at its last register-0x22 write
+         taint |-> [i \in 1..MaxN |-> {}]]                \* cells that may have gone into instance i's chip state (as Inst.taint)
 Init == l = 1 /\ S = S0(MaxN) /\ k = [i \in 1..MaxN |-> 0] /\ ref = <<>> /\ ref2 = <<>> /\ meta = Meta0 /\ rnd = Rnd0
         /\ mraces = {} /\ may = May0 /\ prev = 0 /\ fails = <<>> /\ cnt = Cnt0 /\ drift = <<>> /\ exec = 0
 
-AddFails(F) == IF Len(fails) >= MaxFails \/ F = {} THEN fails ELSE fails \o SetToSeq(F)
+RECURSIVE AddSeq(_, _)
+AddSeq(fs, new) == IF new = <<>> THEN fs
+                   ELSE LET f == Head(new) IN
+                        AddSeq(IF Len(fs) < MaxFails /\ Cardinality({ q \in DOMAIN fs : fs[q].w = f.w }) < MaxPerLabel THEN Append(fs, f) ELSE fs, Tail(new))
+AddFails(F) == IF F = {} THEN fails ELSE AddSeq(fails, SetToSeq(F))
 Fail(w, ev, d) == [p |-> "C14", w |-> w, l |-> l, x |-> exec, e |-> ev.e, d |-> d]
 
 CmdFields == {"e", "i", "emu", "rate", "chips", "k", "p", "fr", "n", "v", "song", "g"}
@@ -49,7 +55,7 @@ Cmd(r) == [f \in (DOMAIN r \cap CmdFields) |-> r[f]]
 
 \* sanitizer location -> cell of the model
 MameSyms == {"tl_tab", "sin_tab", "lfo_pm_table"}
-FmSyms == {"jedi_table", "step_inc", "YM2608::step_inc"}
+FmSyms == {"jedi_table", "(anonymous namespace)::jedi_table", "step_inc", "(anonymous namespace)::YM2608::step_inc"}
 GensSyms == {"LibGens::Ym2612Private::isInit", "LibGens::Ym2612Private::SIN_TAB", "LibGens::Ym2612Private::TL_TAB",
              "LibGens::Ym2612Private::ENV_TAB", "LibGens::Ym2612Private::DECAY_TO_ATTACK", "LibGens::Ym2612Private::SL_TAB",
              "LibGens::Ym2612Private::NULL_RATE", "LibGens::Ym2612Private::LFO_ENV_TAB", "LibGens::Ym2612Private::LFO_FREQ_TAB"}
@@ -64,6 +70,9 @@ SymCell(r) == CASE r[2] \in MameSyms -> (IF r[4] = "fm.cpp" THEN "mamefm.tables"
                 [] r[2] \in Np2Syms -> "np2.tables"
                 [] r[2] \in GensSyms -> "gens.tables"
                 [] OTHER -> "unmodelled"
+
+\* label of a report: the racing global, or the accessing function when the symbolizer has no name for the location
+RaceSym(r) == IF r[2] \in {"?", "??", "heap", "stack"} THEN r[2] \o ":" \o r[3] ELSE r[2]
 
 OtherAlive(St, i) == { j \in 1..MaxN : j # i /\ St.inst[j].alive }
 RECURSIVE JoinEmus(_, _)
@@ -123,19 +132,20 @@ StepOp(ev) ==
                    [ct |-> may.nct, lt |-> may.nlt,
                     nct |-> AfterRound(may.nct, W, CtOf), nlt |-> AfterRound(may.nlt, W, LtOf),
                     wct |-> UNION { SeqToSet(W[j].ct) : j \in 1..MaxN }, wlt |-> UNION { SeqToSet(W[j].lt) : j \in 1..MaxN },
-                    lfod |-> may.lfod]
+                    lfod |-> may.lfod, taint |-> may.taint]
       I1 == S1.inst[i]
       lfodMay == IF ~par \/ ~en THEN {}
                  ELSE IF I1.emu # EMU_NP2 \/ ~I1.lfo THEN {}
                  ELSE IF ev.e \in {"Create", "Switch", "Pcm", "Chips", "Reset", "Load"} THEN {LtKey(I1)} \cup mayR.wlt
                  ELSE IF ev.e = "Lfo" THEN mayR.lt \cup mayR.wlt
                  ELSE mayR.lfod[i]
-      may1 == [mayR EXCEPT !.lfod[i] = lfodMay]
       parDiag == IF ~par \/ ~en \/ ~audio THEN {}
-                 ELSE (IF I1.emu \in {EMU_NUKED3438, EMU_NUKED2612} /\ ~FixChipType
+                 ELSE mayR.taint[i] \cup (IF I1.emu \in {EMU_NUKED3438, EMU_NUKED2612} /\ ~FixChipType
                           /\ ~((mayR.ct \cup mayR.wct) \subseteq {IF I1.emu = EMU_NUKED3438 THEN "ym3438" ELSE "ym2612"}) THEN {"nuked-chip_type"} ELSE {})
                       \cup (IF I1.emu = EMU_NP2 /\ ~FixLfoTable /\ ~(lfodMay \subseteq {LtKey(I1)}) THEN {"np2-lfotable"} ELSE {})
       diag == (IF en THEN S1.last.diag ELSE {}) \cup parDiag
+      may1 == [mayR EXCEPT !.lfod[i] = lfodMay,
+                           !.taint[i] = IF ev.e \in {"Create", "Switch", "Pcm", "Chips", "Reset", "Load", "Close"} THEN {} ELSE IF audio THEN diag ELSE @]
       ctx == "inst=" \o ToString(ev.i) \o " call=" \o ToString(kk) \o " core=" \o emu \o " others=" \o JoinEmus(S1, OtherAlive(S1, i))
       fIso == IF ~bound \/ pcmEq THEN {}
               ELSE IF diag # {} THEN { Fail("interference@" \o d, ev, ctx \o " obs=" \o ev.pcm \o " solo=" \o R1.pcm) : d \in diag }
@@ -155,7 +165,8 @@ StepOp(ev) ==
       evalRace == par /\ isLast /\ meta.tsan = 1
       obsCells == { SymCell(meta.races[q]) : q \in DOMAIN meta.races }
       fRace == IF ~evalRace THEN {}
-               ELSE { Fail("race@" \o meta.races[q][2], ev, "cell=" \o SymCell(meta.races[q]) \o " kind=" \o meta.races[q][1] \o " in " \o meta.races[q][3] \o " (" \o meta.races[q][4] \o ")") : q \in DOMAIN meta.races }
+               ELSE { [Fail("race@" \o RaceSym(meta.races[q]), ev, "cell=" \o SymCell(meta.races[q]) \o " kind=" \o meta.races[q][1] \o " in " \o meta.races[q][3] \o " (" \o meta.races[q][4] \o ")")
+                        EXCEPT !.e = "Threads"] : q \in DOMAIN meta.races }
       drRace == IF evalRace /\ ~(obsCells \subseteq predicted) THEN {"sanitizer reports a race on a cell the model does not predict: " \o ToString(obsCells \ predicted)} ELSE {}
       alld == dr \cup drRace
   IN /\ S' = S1 /\ k' = [k EXCEPT ![i] = kk] /\ prev' = i
